@@ -18,7 +18,8 @@ LEVEL = "model_checking"
 # address, so a handful of raw observations depend on the allocator's history and do not replay (DESIGN section 0)
 NONREPRODUCIBLE_OK = True
 
-BOUNDS = {"quick": [("empty", 4), ("family", 3), ("spent", 3), ("views", 4), ("roview", 3)], "thorough": [("empty", 5), ("family", 4), ("spent", 4), ("written", 4), ("views", 5), ("roview", 4)]}
+BOUNDS = {"quick": [("empty", 4), ("family", 3), ("spent", 3), ("views", 4), ("roview", 3), ("shapes", 4)],
+          "thorough": [("empty", 5), ("family", 4), ("spent", 4), ("written", 4), ("views", 5), ("roview", 4), ("shapes", 5)]}
 MAX_SLOTS = 6
 
 
@@ -34,6 +35,7 @@ class World:
 
         base.reset_mygrad()
         self.mg = mg
+        self.wkind = kind
         self.s = {}  # name -> object (ndarray or Tensor)
         self.kind = {}  # name -> 'arr' | 'npv' | 'ten'
         self.order = []
@@ -72,6 +74,14 @@ class World:
             RV.flags.writeable = False  # the caller made this view of a writeable array read-only
             self.add("RV", RV, "npv")
             self.orig.append((weakref.ref(RV), False))
+        elif kind == "shapes":
+            # two independent tensors and a consumer: `.shape =` replays the tensor as a view of an internal placeholder and
+            # leaves short-lived views behind (whose ids the lock tables may still hold when a later array recycles them)
+            x = mg.tensor([1.0, 2.0, 3.0])
+            self.add("x", x, "ten")
+            self.add("y", mg.tensor([0.5, -0.25]), "ten")
+            self.add("t0", x * 2.0, "ten")
+            self.enter(x.data, self.s["y"].data, self.s["t0"].data)
         elif kind == "written":
             x = mg.tensor([1.0, 2.0, 3.0, 4.0])
             self.add("x", x, "ten")
@@ -248,6 +258,16 @@ def enabled(w, guard_used):
     names = list(w.order)
     nxt = "s%d" % w.time
     room = len(names) < MAX_SLOTS
+    if w.wkind == "shapes":
+        for n in names:
+            if w.kind[n] != "ten":
+                continue
+            if room:
+                sts.append(("mul", nxt, n))
+                sts.append(("tview", nxt, n))
+            sts += [("setshape", n), ("iadd", n), ("backward", n), ("clear", n), ("del", n)]
+        sts.append(("bwall",))
+        return sts
     for n in names:
         k = w.kind[n]
         if room:
@@ -294,6 +314,8 @@ def render(st):
         "fail_fpe": lambda: "try:\n    with np.errstate(divide='raise'): mg.divide(%s, 0.0)\nexcept FloatingPointError: pass" % st[1],
         "fail_idx": lambda: "try: %s[7]\nexcept IndexError: pass" % st[1],
         "del": lambda: "del %s" % st[1],
+        "setshape": lambda: "%s.shape = (-1, 1) if %s.ndim == 1 else (-1,)" % (st[1], st[1]),
+        "bwall": lambda: "sum((t * 1.5).sum() for t in <all live tensors>).backward()",
     }[k]()
 
 
@@ -371,6 +393,20 @@ def apply(w, st):
             w.enter(src.data)
         elif k == "del":
             w.drop(st[1])
+        elif k == "setshape":
+            t = s[st[1]]
+            t.shape = (t.size, 1) if t.ndim == 1 else (t.size,)
+            w.enter(t.data)
+        elif k == "bwall":
+            L = None
+            for n in w.order:
+                if w.kind[n] == "ten":
+                    term = (s[n] * 1.5).sum()
+                    L = term if L is None else L + term
+            if L is not None:
+                w.mark_cleared(L)
+                L.backward()
+            del L
     except Exception as e:
         eb = base.exc_brief(e)
         del e
@@ -395,7 +431,7 @@ def run_history(wkind, h):
         ro_before = st[0] == "iadd" and not w.s[st[1]].data.flags.writeable
         r = apply(w, st)
         if r is not None and r[0] == "raised":
-            if st[0] in ("backward", "clear") and r[1].startswith("InvalidBackprop"):
+            if st[0] in ("backward", "clear", "bwall") and r[1].startswith("InvalidBackprop"):
                 return ("loud",), w  # legitimate loud failure (C09); the branch ends here
             # out= into a read-only target, and an in-place update of a tensor whose memory the caller
             # cannot write (natively read-only, or a NumPy view of a locked array), must raise
@@ -457,7 +493,7 @@ def explore(wkind, prefix, depth, acc):
             continue
         acc.outcome("ok")
         acc.inc("traces")
-        if any(s[0] in ("backward", "clear", "del", "fail", "fail_fpe", "fail_idx") for s in h) and any(s[0] in ("mul", "alias", "out", "tview", "iadd") for s in h):
+        if any(s[0] in ("backward", "clear", "bwall", "del", "fail", "fail_fpe", "fail_idx") for s in h) and any(s[0] in ("mul", "alias", "out", "tview", "iadd", "setshape") for s in h):
             acc.nontrivial.add(base.stable_hash((wkind, h)))
         if len(acc.samples) < 2 and len(h) == depth:
             acc.samples.append("[%s] " % wkind + "; ".join(render(s) for s in h))
